@@ -102,6 +102,24 @@ def specRender (rotate : Int) (mb : Rect) (p : Point) : Rect × Matrix :=
   let (ey, _) := specDevice rotate mb (p.1, p.2 + 1)
   ((0, 0, w, h), (ex.1 - o.1, ex.2 - o.2, ey.1 - o.1, ey.2 - o.2, o.1, o.2))
 
+/-! ### Trees inside object graphs -/
+
+/-- References to the roots of a list of trees (what a Kids array holds). -/
+def kidRefs (ts : List PTree) : List Atom := ts.map (fun t => Atom.ref t.id)
+
+mutual
+  /-- The object graph `g` contains the tree `t`: every node's dictionary is what its reference
+  resolves to, has the right Type, and a Pages node's Kids are the references to its children. -/
+  def Embeds (g : Store) : PTree → Prop
+    | .page i d => dictValue g (.atom (.ref i)) = d ∧ isName (nodeType d) "Page" = true
+    | .pages i d kids =>
+      dictValue g (.atom (.ref i)) = d ∧ isName (nodeType d) "Pages" = true ∧
+      (∃ kv, dget d "Kids" = some kv ∧ listValue g kv = kidRefs kids) ∧ EmbedsL g kids
+  def EmbedsL (g : Store) : List PTree → Prop
+    | [] => True
+    | t :: ts => Embeds g t ∧ EmbedsL g ts
+end
+
 /-! ### Unfolding an object graph (driver only) -/
 
 def mapKids (f : Atom → Option PTree) : List Atom → Option (List PTree)
